@@ -47,7 +47,7 @@ type ReplayVal struct {
 
 type Engine struct {
 	files     map[string][]Sc // files created by vrt.TempFile (per path)
-	curPanic  *goPanic // the panic whose deferred calls are running (nil: none, or recovered)
+	curPanic  *goPanic        // the panic whose deferred calls are running (nil: none, or recovered)
 	prog      *ssa.Program
 	tt        *TermTab
 	solver    *Solver
